@@ -4,6 +4,7 @@ import (
 	"io"
 	"strconv"
 	"strings"
+	"unicode/utf8"
 
 	"github.com/alecthomas/participle/v2/lexer"
 )
@@ -51,16 +52,25 @@ func Unquote(types ...string) Option {
 func unquote(s string) (string, error) {
 	quote := s[0]
 	s = s[1 : len(s)-1]
-	out := ""
+	if quote == '`' {
+		// Raw strings contain no escape sequences; as in Go, carriage returns are discarded.
+		return strings.ReplaceAll(s, "\r", ""), nil
+	}
+	out := make([]byte, 0, len(s))
 	for s != "" {
-		value, _, tail, err := strconv.UnquoteChar(s, quote)
+		value, multibyte, tail, err := strconv.UnquoteChar(s, quote)
 		if err != nil {
 			return "", err
 		}
 		s = tail
-		out += string(value)
+		if value < utf8.RuneSelf || !multibyte {
+			// A single byte, eg. from a \xNN escape, is not necessarily valid UTF-8 on its own.
+			out = append(out, byte(value))
+		} else {
+			out = utf8.AppendRune(out, value)
+		}
 	}
-	return out, nil
+	return string(out), nil
 }
 
 // Upper is an Option that upper-cases all tokens of the given type. Useful for case normalisation.
